@@ -31,6 +31,102 @@ let hex (l : z list) = "x" ^ hexbytes_of_zlist l
 let b2s b = if b then "true" else "false"
 let res f = function Val v -> f v | Trap -> "!trap" | Unsafe -> "!unsafe"
 
+(* ---- the port's StrPatt around the extracted matcher ---- *)
+exception PTrap
+exception PUnsafe
+exception PFuel
+
+let zlen l = z_of_int (List.length l)
+let zlt a b = Z.ltb a b
+let zle a b = Z.leb a b
+let zeq a b = Z.eqb a b
+
+(* StrPatt.create + StrPatt.match: returns (start, end, captures) *)
+let ms_match (src : z list) (pat : z list) (plain : bool) (pos : z) : ((z * z) * (z * z) list) option =
+  let plain = if has_specials pat then plain else false in
+  let anchor = (not plain) && (match pat with c :: _ -> int_of_z c = 94 | [] -> false) in
+  if zlt (zlen src) pos then None
+  else if pat = [] then Some ((pos, pos), [])
+  else if plain then
+    (match plain_find (nat_of_int (List.length src - int_of_z pos)) src pat pos with
+     | Some st -> Some ((st, Z.add st (zlen pat)), [])
+     | None -> None)
+  else begin
+    let p0 = if anchor then z_of_int 1 else Z0 in
+    let m p = match run_match nl_cfg src pat p0 p with
+      | MFound (e, c) -> Some (e, c)
+      | MFail -> None
+      | MError | MTooComplex -> raise PTrap
+      | MUnsafe -> raise PUnsafe
+      | MFuel -> raise PFuel in
+    nl_ms_match src m anchor pos
+  end
+
+let sub_list (l : z list) (a : z) (n : z) : z list =
+  let a = int_of_z a and n = int_of_z n in
+  List.filteri (fun i _ -> i >= a && i < a + n) l
+
+(* string_match's reading of the captures: position and unfinished captures stop the program *)
+let cap_strings (src : z list) (caps : (z * z) list) : z list list =
+  List.map (fun (ci, cl) ->
+      if int_of_z cl < 0 then raise PTrap else sub_list src ci cl) caps
+
+let pattern_op (op : string) (s : int -> z list) (n : int -> z) : string =
+  match op with
+  | "find" ->
+    let src = s 0 and pat = s 1 in
+    (match nl_find_init (n 2) (zlen src) with
+     | None -> "0 0"
+     | Some i0 ->
+       (match ms_match src pat (int_of_z (n 3) <> 0) i0 with
+        | Some ((st, e), _) -> dec_of_z (Z.add st (z_of_int 1)) ^ " " ^ dec_of_z e
+        | None -> "0 0"))
+  | "match" ->
+    let src = s 0 and pat = s 1 in
+    (match nl_find_init (n 2) (zlen src) with
+     | None -> "false"
+     | Some i0 ->
+       (match ms_match src pat false i0 with
+        | None -> "false"
+        | Some ((st, e), caps) ->
+          let strs = if caps = [] then [sub_list src st (Z.sub e st)] else cap_strings src caps in
+          "true" ^ String.concat "" (List.map (fun x -> " " ^ hex x) strs)))
+  | "gmatch" ->
+    let src = s 0 and pat = s 1 in
+    let len = List.length src in
+    let buf = Buffer.create 64 in
+    let rec loop init k first =
+      match ms_match src pat false init with
+      | None -> true
+      | Some ((st, e), caps) ->
+        if k + 1 > len + 1 then false
+        else begin
+          if List.length caps > 8 then raise PTrap;
+          let strs = if caps = [] then [sub_list src st (Z.sub e st)] else cap_strings src caps in
+          if not first then Buffer.add_char buf ' ';
+          Buffer.add_string buf (String.concat "," (List.map hex strs));
+          loop e (k + 1) false
+        end in
+    if loop Z0 0 true then "[" ^ Buffer.contents buf ^ "]" else "!loop"
+  | "gsub" | "gsub3" ->
+    let src = s 0 and pat = s 1 and repl = s 2 in
+    let maxn = if op = "gsub3" then Z.add (zlen src) (z_of_int 1) else n 3 in
+    let anchor = (match pat with c :: _ -> int_of_z c = 94 | [] -> false) in
+    let p0 = if anchor then z_of_int 1 else Z0 in
+    let m p =
+      if pat = [] then Some (p, [])
+      else match run_match nl_cfg src pat p0 p with
+        | MFound (e, c) -> Some (e, c)
+        | MFail -> None
+        | MError | MTooComplex -> raise PTrap
+        | MUnsafe -> raise PUnsafe
+        | MFuel -> raise PFuel in
+    (match nl_gsub m src repl anchor maxn with
+     | Some (Ok (r, k)) -> hex r ^ " " ^ dec_of_z k
+     | Some Err -> "!trap"
+     | None -> "!fuel")
+  | _ -> "?"
+
 let () =
   iter_lines (fun line ->
     match split_ws line with
@@ -88,6 +184,8 @@ let () =
                    dec_of_z shown ^ " " ^ string_of_int (size + 1)
                end
              end
+           | "find" | "match" | "gmatch" | "gsub" | "gsub3" ->
+             (try pattern_op op s n with PTrap -> "!trap" | PUnsafe -> "!unsafe" | PFuel -> "!fuel")
            | "abs" -> dec_of_z (nl_abs (n 0))
            | "fmod" -> res dec_of_z (nl_fmod (n 0) (n 1))
            | "ult" -> b2s (nl_ult (n 0) (n 1))
